@@ -1,3 +1,4 @@
+pub mod flat;
 pub mod lat;
 pub mod rep;
 
@@ -54,9 +55,16 @@ pub fn fmt_bits<S: Flt>(xs: &[S]) -> String {
     s
 }
 
-/// run `f`, converting a panic into Err(message)
+thread_local! {
+    pub static QUIET: std::cell::Cell<u32> = const { std::cell::Cell::new(0) };
+}
+
+/// run `f`, converting a panic into Err(message); panics inside are not printed
 pub fn catch<R>(f: impl FnOnce() -> R) -> Result<R, String> {
-    match std::panic::catch_unwind(std::panic::AssertUnwindSafe(f)) {
+    QUIET.with(|q| q.set(q.get() + 1));
+    let r = std::panic::catch_unwind(std::panic::AssertUnwindSafe(f));
+    QUIET.with(|q| q.set(q.get() - 1));
+    match r {
         Ok(r) => Ok(r),
         Err(e) => {
             if let Some(s) = e.downcast_ref::<&str>() {
